@@ -82,8 +82,10 @@ TrToGraph ==  \* compaction in index order; edges are re-added in index order
        /\ stamp' = stamp + Len(es) + 1
     /\ UNCHANGED <<dir, maxix, pending>> /\ Bind
 
-TrObs == /\ IsEv("obs") /\ ObsOK(E)
-         /\ UNCHANGED <<nd, ed, dir, maxix, stamp, ret, pending, kind>>
+\* the IF makes TLC evaluate ObsOK as a state predicate (otherwise its inner disjunctions are expanded
+\* as alternative ways to build the successor state)
+TrObs == /\ IsEv("obs")
+         /\ IF ObsOK(E) THEN UNCHANGED <<nd, ed, dir, maxix, stamp, ret, pending, kind>> ELSE FALSE
 
 TraceNext ==
     \/ TrReset \/ TrTryAddNode \/ TrAddNode \/ TrTryAddEdge \/ TrAddEdge \/ TrTryUpdateEdge \/ TrUpdateEdge
